@@ -64,6 +64,10 @@ class SingleFilterSet(FilterSetInterface[FilterValueT], metaclass=ABCMeta):
     async def put(self, name: str, value: FilterValueT) -> None:
         if name == self.name:
             await self.replace_active(value)
+        else:
+            # only the permanent name can hold a filter: refuse, rather than
+            # report success and drop the value
+            raise NotImplementedError()
 
     async def delete(self, name: str) -> None:
         if name == self.name:
